@@ -7,6 +7,7 @@ import (
 	"encoding/json"
 	"fmt"
 	"sort"
+	"strings"
 
 	"github.com/cloudwego/eino/compose"
 
@@ -83,15 +84,95 @@ func genChan(r *lib.Rng, tier string) *ChanCase {
 	return c
 }
 
+// eagerClean: in a Workflow (eager mode) a node that is both a direct control successor and a branch end of the
+// same source is skipped or not depending on which of its predecessors completes first (the skip report of the
+// branch is overridden by the dependency report only while some other entry is not skipped): the outcome
+// depends on goroutine timing, which the harness cannot observe. The direct dependency is turned into the
+// documented Workflow pattern "branch + data-only input" (WithNoDirectDependency). Batch-mode graphs keep the
+// shape: there every skip report of a step precedes every dependency report, whatever the order.
+func eagerClean(c *gg.Case) *gg.Case {
+	for gi := range c.Forest {
+		g := &c.Forest[gi]
+		if !g.Eager() {
+			continue
+		}
+		for ni := range g.Nodes {
+			n := &g.Nodes[ni]
+			if n.Key == gg.START {
+				continue // START is resolved alone, before anything runs: no race
+			}
+			// END needs a direct control edge ("end node not set" otherwise): if this is the only one, the
+			// branches of n that lead to END are dropped instead of the edge
+			otherEnd := false
+			for oi := range g.Nodes {
+				if oi != ni {
+					for _, t := range g.Nodes[oi].CSucc {
+						otherEnd = otherEnd || t == gg.END
+					}
+				}
+			}
+			if !otherEnd {
+				var bs []gg.Branch
+				for bi := range n.Branches {
+					toEnd := false
+					for _, e := range n.Branches[bi].Ends {
+						toEnd = toEnd || e == gg.END
+					}
+					hasEdge := false
+					for _, t := range n.CSucc {
+						hasEdge = hasEdge || t == gg.END
+					}
+					if !(toEnd && hasEdge) {
+						bs = append(bs, n.Branches[bi])
+					}
+				}
+				n.Branches = bs
+			}
+			var keep []uint64
+			for _, t := range n.CSucc {
+				inBranch := false
+				for bi := range n.Branches {
+					for _, e := range n.Branches[bi].Ends {
+						inBranch = inBranch || e == t
+					}
+				}
+				if !inBranch {
+					keep = append(keep, t)
+				}
+			}
+			n.CSucc = keep
+		}
+	}
+	return c
+}
+
 func (engine) Generate(r *lib.Rng, tier string, i int) any {
+	c := generate(r, tier, i)
+	if c.Graph != nil {
+		eagerClean(c.Graph)
+	}
+	return c
+}
+
+func generate(r *lib.Rng, tier string, i int) *Case {
 	o := gg.Quick()
 	if tier == "thorough" {
 		o = gg.Thorough()
 	}
 	o.FailProb = 4
-	switch x := r.Intn(20); {
+	switch x := r.Intn(22); {
 	case x < 4:
 		return &Case{Chan: genChan(r, tier)}
+	case x >= 20:
+		// a control cycle (or, one time in four, a cycle closed by a data-only edge, which validateDAG does not see)
+		var c *gg.Case
+		if r.Chance(1, 2) {
+			c = gg.GenDAG(r, o)
+		} else {
+			c = gg.GenWorkflow(r, o)
+		}
+		addCycle(r, c)
+		return &Case{Graph: c}
 	case x < 10:
 		return &Case{Graph: gg.GenDAG(r, o)}
 	case x < 12:
@@ -257,6 +338,25 @@ func chanOracle(c *ChanCase, obs []chanObs) (string, string) {
 				}
 			}
 		}
+		if i > 0 && obs[i-1].Skipped {
+			// a skipped channel stays skipped, and reports of values / dependencies do not change it
+			prev := obs[i-1]
+			if !o.Skipped {
+				return fmt.Sprintf("op %d (%s): a skipped channel is no longer skipped", i, op.Op), "chan-unskipped"
+			}
+			if op.Op == "values" || op.Op == "deps" {
+				same := len(prev.Ctrl) == len(o.Ctrl) && len(prev.Data) == len(o.Data) && len(prev.Vals) == len(o.Vals)
+				for k, s := range prev.Ctrl {
+					same = same && o.Ctrl[k] == s
+				}
+				for k, b := range prev.Data {
+					same = same && o.Data[k] == b
+				}
+				if !same {
+					return fmt.Sprintf("op %d (%s): a report changed a skipped channel", i, op.Op), "chan-skipped-changed"
+				}
+			}
+		}
 		if op.Op == "skip" {
 			all := true
 			for _, s := range o.Ctrl {
@@ -293,12 +393,37 @@ func (engine) Run(c any) lib.Result {
 	g := cs.Graph
 	obs := gg.Run(g, gg.RunOpts{})
 	res := lib.Result{Obs: obs, Tags: append(gg.Tags(g, obs), "kind:graph")}
+	if obs.Class == "compile" && strings.Contains(obs.ErrMsg, "DAG invalid") && strings.Contains(obs.ErrMsg, "has loop") {
+		// validateDAG rejected the graph: the model's validate_dag must reject it too
+		res.Tags = append(res.Tags, "compile:loop")
+		res.CoqTerm = "(CLoop " + g.CoqForest() + ")"
+		res.Nontrivial = true
+		if !hasControlCycle(g) {
+			res.Oracle, res.Sig = "Compile reported a loop in a graph without control cycle: "+obs.ErrMsg, "dag-false-loop"
+		}
+		return res
+	}
 	if obs.Class == "compile" || obs.Class == "budget" {
 		res.Tags = append(res.Tags, "not-in-model:"+obs.Class)
 		return res
 	}
+	if hasControlCycle(g) {
+		res.Oracle, res.Sig = "a graph with a control cycle compiled in all-predecessor mode (class "+obs.Class+")", "dag-cycle-accepted"
+	}
 	res.CoqTerm = "(CGraph " + g.CoqCase(obs) + ")"
-	res.Oracle, res.Sig = gg.OracleDAG(g, obs)
+	if res.Oracle == "" && (obs.Class == "hang" || obs.Class == "panic") {
+		// a compiled graph must finish: END is assembled, or the run fails with an error
+		res.Oracle, res.Sig = "Invoke of a compiled all-predecessor graph ended with "+obs.Class+": "+obs.ErrMsg, "dag-"+obs.Class
+	}
+	if res.Oracle == "" {
+		res.Oracle, res.Sig = oracleDAG(g, obs)
+	}
+	if msg, sig, judged := oracleSpec(g, obs); judged {
+		res.Tags = append(res.Tags, "spec:judged")
+		if res.Oracle == "" {
+			res.Oracle, res.Sig = msg, sig
+		}
+	}
 	res.Nontrivial = gg.Nontrivial(g, obs)
 	return res
 }
